@@ -1,8 +1,10 @@
 """
 C14 — templates are built from descriptor lists exactly as FM-94 prescribes.
 
-Theorems: lean/BufrModel/Props/C14.lean (arbitrary tables, id lists of any length / nesting).
-Tie (four streams, all against the working tree named by VERIF_REPO):
+Theorems: lean/BufrModel/Props/C14.lean (arbitrary tables, id lists of any length / nesting), Props/C14History.lean
+(in-stream table entries registered in the process: unrelated entries change no template, the repair pass
+_fix_ncep_descriptors is the identity on well-counted lists).
+Tie (six streams, all against the working tree named by VERIF_REPO):
   rows       every Table D row of the selected bundled table groups: `flat_member_ids(lookup(id))` and the Table B
              attributes of every leaf  vs  the model (`expand-all`: built tree flattened, the flat counting
              specification, the leaves) — compared per row by digest, drilled down on mismatch; the decidable
@@ -13,6 +15,11 @@ Tie (four streams, all against the working tree named by VERIF_REPO):
              and `get_table_group(...).key` over the bundled tree  vs  the model's fall-back chain.
   unknown    messages encoded by the Encoder whose section 3 is patched to name a descriptor that is in no table
              (top level, inside a replication, in factor position): decoding must raise UnknownDescriptor (oracle).
+  history    (harness/c14hist.py) the `lists` correspondence repeated in process states that hold in-stream table entries
+             (table-definition messages decoded before / add_extra_entries): entries unrelated to the list (template must
+             be identical to the one built without entries) and entries that define ids of the list (template follows
+             files + entries, TableDef.extend); fixed / delayed replication nested to depth 4 x followed or not at every
+             level; NCEP-style member-less replication sequences; model = build over extended tables + fixNcep.
   positions  (harness/c14pos.py) the same question asked systematically: scope (what operator is in force: 221 range,
              203 definition / in force, after 206, 204, 201/202/207/208, 205, bitmap definition, class-33 / 008023 /
              marker position after the bitmap) x container (top, fixed / delayed replication incl. count 0, nesting,
@@ -29,7 +36,7 @@ import os
 import shutil
 import tempfile
 
-from harness import c14pos, core, tables_io
+from harness import c14hist, c14pos, core, tables_io
 
 PROP = 'C14'
 
@@ -42,10 +49,17 @@ META = dict(
          'which the driver evaluates on every loaded row) and equals a count-free expansion for every list that builds at '
          'all; every Table B position of a built tree is the unchanged Table B entry or an undefined placeholder; the '
          'dispatch skeleton of the coder walk fails with unknown-descriptor at the first undefined member it reaches; the '
-         'table selection result lies in the documented fall-back chain. Correspondence: every Table D row of the '
+         'table selection result lies in the documented fall-back chain; building over tables extended by in-stream entries '
+         'equals building over the table files for every list that reaches no id the entries define, and the repair pass '
+         '_fix_ncep_descriptors, run once such entries are registered, is the identity on the tree of every well-counted list '
+         'whose replications have X >= 1. Correspondence: every Table D row of the '
          'selected bundled groups (quick: version 33, 4 seeded versions, all local 98_0 tables; thorough: all 36 versions), '
          'random well-counted and ill-counted id lists against template_from_ids, ~650 normalize_tables_sn selections over '
-         'scratch directory trees, and patched messages that must raise UnknownDescriptor: ~1 900 (quick; thorough ~16 000) '
+         'scratch directory trees, the id-list correspondence repeated in 9 (thorough 24) process states with in-stream table '
+         'entries registered (entries unrelated to the lists: template identical to the one built before; entries defining '
+         'elements / sequences the lists use, NCEP-style member-less replication sequences: template follows files + entries; '
+         'all fixed / delayed nestings to depth 4, followed or not by further descriptors at every level; ~5 200 lists quick), '
+         'and patched messages that must raise UnknownDescriptor: ~1 900 (quick; thorough ~16 000) '
          'messages with one descriptor that is in no table at every kind of position the walk distinguishes (operator scope x '
          'replication / sequence container x descriptor class x compression), decoded by the plain and the compiled-template '
          'decoder with and without wiring and by the coder model (error family and values compared).',
@@ -60,7 +74,10 @@ META = dict(
          'skipped field of YYY bits). The file '
          'system is an abstract directory predicate. Two bundled local rows (312209 of 98_0/1 and 98_0/101) are ill counted '
          '(their replication runs past the end of the row): for them the counting specification is undefined and the '
-         'count-free expansion theorem applies.')
+         'count-free expansion theorem applies. Once in-stream entries are registered the implementation refuses a '
+         'replication with X = 0 (AssertionError in the repair pass) that it builds before; the model mirrors that '
+         '(C14_fix_ncep_refuses_X0) and the identity theorem asks for X >= 1. In-stream rows that redefine a sequence a '
+         'table-file row refers to are left to C20 (by-source resolution).')
 
 E_UNDEF, S_UNDEF = 63255, 363255      # in no bundled table (checked at run time)
 MODP = 2305843009213693951
@@ -937,6 +954,7 @@ def run(ctx):
     check_synthetic(ctx, 8 if q else 80, 40, 20)
     check_normalize(ctx)
     check_unknown(ctx)
+    c14hist.run(ctx)
     c14pos.run(ctx)
     report_breaks(ctx)
     ctx.assumptions = ['descriptor objects shared between cached sequences behave as values (no mutation after loading)',
@@ -952,6 +970,8 @@ def replay(ctx, path):
     ctx.seen_row_failures = set()
     if r.get('positions'):
         c14pos.replay(ctx, r)
+    elif r.get('history'):
+        c14hist.replay(ctx, r)
     elif r.get('unknown'):
         tag, pids, _ = unknown_case(ctx, r['ids'], r['vals'], r['k'], r['role'], r['new_id'])
         if tag is None:
